@@ -1,0 +1,54 @@
+//go:build verif
+
+package podtemplate
+
+// Contracts read by the verification engine in /verif (govc). Comment-only file.
+//
+//@ import v1 "github.com/DataDog/extendeddaemonset/api/v1alpha1"
+//@ import corev1 "k8s.io/api/core/v1"
+//@ import comparison "github.com/DataDog/extendeddaemonset/pkg/controller/utils/comparison"
+//@
+//@ func (*Reconciler).newPodTemplate
+//@   requires r != nil && eds != nil
+//@   modifies mapof(eds.ObjectMeta.Labels), mapof(eds.ObjectMeta.Annotations)
+//@   let h = comparison.GenerateMD5PodTemplateSpec(&eds.Spec.Template)
+//@   ensures result1 == nil ==> result != nil && fresh(result)
+//@   ensures [C13] named-after-the-daemonset: result1 == nil ==> result.ObjectMeta.Name == eds.ObjectMeta.Name && result.ObjectMeta.Namespace == eds.ObjectMeta.Namespace
+//@   ensures [C13] records-the-template-hash: result1 == nil ==> snd(h) == nil && result.ObjectMeta.Annotations != nil
+//@             && result.ObjectMeta.Annotations["extendeddaemonset.datadoghq.com/templatehash"] == fst(h)
+//@   ensures [C13] marked-as-a-daemonset-template: result1 == nil ==> result.ObjectMeta.Labels != nil && result.ObjectMeta.Labels["cluster-autoscaler.kubernetes.io/daemonset-pod"] == "true"
+//@
+//@ func (*Reconciler).createPodTemplate
+//@   logs
+//@   requires r != nil && r.client != nil && r.recorder != nil && eds != nil
+//@   modifies mapof(eds.ObjectMeta.Labels), mapof(eds.ObjectMeta.Annotations)
+//@   let h = comparison.GenerateMD5PodTemplateSpec(&eds.Spec.Template)
+//@   ensures [C11,C13] at-most-one-call-and-it-is-a-create: loglen() <= old(loglen()) + 1 && (forall k int :: lognew(k) ==> logverb(k) == "Create")
+//@   ensures [C13] creates-the-template-object-of-the-daemonset: forall k int :: lognew(k) ==>
+//@             cast(logsent(k), "*corev1.PodTemplate").ObjectMeta.Name == eds.ObjectMeta.Name && cast(logsent(k), "*corev1.PodTemplate").ObjectMeta.Namespace == eds.ObjectMeta.Namespace
+//@             && cast(logsent(k), "*corev1.PodTemplate").ObjectMeta.Annotations["extendeddaemonset.datadoghq.com/templatehash"] == fst(h)
+//@
+//@ func (*Reconciler).updatePodTemplateIfNeeded
+//@   logs
+//@   requires r != nil && r.client != nil && r.recorder != nil && eds != nil && podTpl != nil
+//@   modifies mapof(eds.ObjectMeta.Labels), mapof(eds.ObjectMeta.Annotations)
+//@   let h = comparison.GenerateMD5PodTemplateSpec(&eds.Spec.Template)
+//@   ensures [C11,C13] at-most-one-call-and-it-is-an-update: loglen() <= old(loglen()) + 1 && (forall k int :: lognew(k) ==> logverb(k) == "Update")
+//@   ensures [C13] no-write-when-the-recorded-hash-matches: old(podTpl.ObjectMeta.Annotations != nil && podTpl.ObjectMeta.Annotations["extendeddaemonset.datadoghq.com/templatehash"] == fst(h)) && snd(h) == nil ==> loglen() == old(loglen())
+//@   ensures [C13] writes-the-current-template-hash: forall k int :: lognew(k) ==>
+//@             cast(logsent(k), "*corev1.PodTemplate").ObjectMeta.Name == eds.ObjectMeta.Name && cast(logsent(k), "*corev1.PodTemplate").ObjectMeta.Namespace == eds.ObjectMeta.Namespace
+//@             && cast(logsent(k), "*corev1.PodTemplate").ObjectMeta.Annotations["extendeddaemonset.datadoghq.com/templatehash"] == fst(h)
+//@   ensures [C13] a-stale-template-object-is-rewritten-or-an-error-is-reported: result1 == nil && snd(h) == nil
+//@             && !old(podTpl.ObjectMeta.Annotations != nil && podTpl.ObjectMeta.Annotations["extendeddaemonset.datadoghq.com/templatehash"] == fst(h)) ==> loglen() == old(loglen()) + 1
+//@
+//@ func (*Reconciler).Reconcile
+//@   logs
+//@   requires r != nil && r.client != nil && r.recorder != nil
+//@   modifies nothing
+//@   let n0 = old(loglen())
+//@   ensures [C11,C13] reads-the-daemonset-then-the-template-then-at-most-one-write: loglen() > n0 && logverb(n0) == "Get"
+//@             && logkeyns(n0) == request.NamespacedName.Namespace && logkeyname(n0) == request.NamespacedName.Name
+//@             && (forall k int :: lognew(k) && k > n0 ==> (k == n0 + 1 && logverb(k) == "Get" && logkeyns(k) == request.NamespacedName.Namespace && logkeyname(k) == request.NamespacedName.Name)
+//@                 || (k == n0 + 2 && (logverb(k) == "Create" || logverb(k) == "Update")))
+//@   ensures [C12,C13] writes-only-the-template-object-named-like-the-daemonset: forall k int :: lognew(k) && (logverb(k) == "Create" || logverb(k) == "Update") ==>
+//@             cast(logsent(k), "*corev1.PodTemplate").ObjectMeta.Name == request.NamespacedName.Name && cast(logsent(k), "*corev1.PodTemplate").ObjectMeta.Namespace == request.NamespacedName.Namespace
